@@ -43,7 +43,8 @@ IncFile(i) == "inc" \o ToString(i) \o ".sqf"
 (*   nf          number of include files created so far (naming)           *)
 (*   drift       kind of the first element since the last #line marker     *)
 (*               that emitted fewer newlines than it consumed ("" if none) *)
-Start(file, nf) == [file |-> file, phys |-> 1, bfile |-> file, bel |-> 1, nf |-> nf, drift |-> ""]
+\*   mark        what produced the last #line marker: "file-start" | "include-return"
+Start(file, nf) == [file |-> file, phys |-> 1, bfile |-> file, bel |-> 1, nf |-> nf, drift |-> "", mark |-> "file-start"]
 
 RECURSIVE Walk(_, _, _, _)
 Walk(st, lay, i, dev) ==
@@ -52,7 +53,7 @@ Walk(st, lay, i, dev) ==
          IF el.k = "include"
          THEN LET inner == Walk(Start(IncFile(st.nf + 1), st.nf + 1), el.sub, 1, dev)
               \* `#line <l> "parent"` behind the included text re-synchronises the parent
-              IN Walk([st EXCEPT !.phys = st.phys + 1, !.bel = st.phys + 1, !.bfile = st.file, !.nf = inner.nf, !.drift = ""], lay, i + 1, dev)
+              IN Walk([st EXCEPT !.phys = st.phys + 1, !.bel = st.phys + 1, !.bfile = st.file, !.nf = inner.nf, !.drift = "", !.mark = "include-return"], lay, i + 1, dev)
          ELSE Walk([st EXCEPT !.phys = st.phys + Phys(el), !.bel = st.bel + Newlines(el, dev),
                               !.drift = IF st.drift = "" /\ Newlines(el, dev) # Phys(el) THEN el.k ELSE st.drift], lay, i + 1, dev)
 
@@ -66,6 +67,7 @@ AtFault(src, dev) == Descend(Walk(Start(MainFile, 0), src.lay, 1, dev), src.nest
 Origin(src) == LET s == AtFault(src, {}) IN [file |-> s.file, line |-> s.phys]
 Believed(src, dev) == LET s == AtFault(src, dev) IN [file |-> s.bfile, line |-> s.bel]
 Drift(src, dev) == AtFault(src, dev).drift
+LastMarker(src) == AtFault(src, {}).mark
 
 \* column (0-based) of the offending token on the fault line
 FaultOffset(kind) == CASE kind = "parse" -> 10      \* vd__q = 1 ) ;      the stray ")"
